@@ -1,7 +1,8 @@
 """C03 — all pairing entry points agree and ignore the projective representative (structural clauses)."""
 from core import report
 from core.sm9 import Repo
-from . import shared, norm, miller
+from . import shared, norm, miller, profile, conv2
+from .roles import PairingRoles
 
 
 def run(ctx):
@@ -15,6 +16,16 @@ def run(ctx):
             rules.append(norm.rule_id_guard("C03", repo, N))
             rules.append(norm.rule_prep_immut("C03", repo))
             rules.extend(miller.rules("C03", repo))
+    # the wrapper layer of the pairing entry points cannot panic on any operand, identities included (release MIR); the Miller /
+    # final-exponentiation module itself is numerical and out of this rule, the one `expect` on its result is an assumption
+    repo_rel = Repo(ctx.rel)
+    Fr_ = repo_rel.F
+    roles = PairingRoles(Fr_)
+    entries = [p for p in ("crate::pairing", "crate::fast_pairing", "crate::<impl crate::pairings::G2Prepared>::pairing",
+                           "crate::<impl core::convert::From<crate::G2> for crate::pairings::G2Prepared>::from") if p in Fr_.bodies]
+    fe = {b.rec["path"]: "the Miller value of points of the groups is a product of non-zero line values, hence invertible (numerical; not decided here)" for b in roles.final_exps}
+    rules.append(profile.rule_nopanic_core("C03", repo_rel, entries, conv2.make_conv, skip=lambda d: roles.in_module(Fr_.bodies[d]) if d in Fr_.bodies else False,
+                                           assumed_producers=fe, include_api=True))
     return report.emit(
         "C03", ctx.tier, ctx.seed, rules, ctx.started,
         "Typestate over Jacobian points: affine-only parameters are inferred (reads x/y, never z), requirements lift through unchanged / z-preservingly mapped "
